@@ -62,14 +62,14 @@ def rxOfReply : Reply → Option Nat
 def viewAfter (v : View) : Ev → Reply → View
   | .choke _, _ => (v.1, true)
   | .unchoke _ _, r => (rxOfReply r, false)
-  | .have _ _, .request c _ => (some c, v.2)
+  | .have _ _ _, .request c _ => (some c, v.2)
   | .pieceDone _ _, r => (rxOfReply r, v.2)
   | .pieceCancel _ _, r => (rxOfReply r, v.2)
   | _, _ => v
 
 def evAddr : Ev → Nat
   | .add a _ => a | .choke a => a | .unchoke a _ => a | .interested a => a | .notInterested a _ => a
-  | .have a _ => a | .bitfield a _ _ => a | .pieceDone a _ => a | .pieceCancel a _ => a | .kill a => a
+  | .have a _ _ => a | .bitfield a _ _ => a | .pieceDone a _ => a | .pieceCancel a _ => a | .kill a => a
 
 def isAddOrKill : Ev → Bool
   | .add _ _ => true
@@ -123,22 +123,29 @@ theorem mstep_view (m m' : MState) (a : Nat) (ev : Ev) (r : Reply) (p : MPeer) (
     simp only [mstep, hp, Out.ok.injEq] at h
     obtain ⟨rfl, rfl⟩ := h
     exact ⟨_, findPeer_setPeer m _ _ p _ hpa hp, rfl, by intro hidx y hy; first | exact hidx y hy | exact hy | cases hy⟩
-  | «have» b i =>
+  | «have» b i chosen =>
     simp only [evAddr] at hev; subst hev
     simp only [mstep, hp] at h
     split at h
     · cases h
-    · split at h
-      · split at h
-        · simp only [Out.ok.injEq] at h
-          obtain ⟨rfl, rfl⟩ := h
-          exact ⟨_, findPeer_setPeer m _ _ p _ hpa hp, rfl, by intro hidx y hy; first | exact hidx y hy | exact hy | cases hy⟩
-        · simp only [Out.ok.injEq] at h
-          obtain ⟨rfl, rfl⟩ := h
-          exact ⟨_, findPeer_setPeer m _ _ p _ hpa hp, rfl, by intro hidx y hy; first | exact hidx y hy | exact hy | cases hy⟩
-      · simp only [Out.ok.injEq] at h
+    · cases chosen with
+      | none =>
+        simp only [Out.ok.injEq] at h
         obtain ⟨rfl, rfl⟩ := h
         exact ⟨_, findPeer_setPeer m _ _ p _ hpa hp, rfl, by intro hidx y hy; first | exact hidx y hy | exact hy | cases hy⟩
+      | some c =>
+        simp only at h
+        split at h
+        · split at h
+          · simp only [Out.ok.injEq] at h
+            obtain ⟨rfl, rfl⟩ := h
+            exact ⟨_, findPeer_setPeer m _ _ p _ hpa hp, rfl, by intro hidx y hy; first | exact hidx y hy | exact hy | cases hy⟩
+          · simp only [Out.ok.injEq] at h
+            obtain ⟨rfl, rfl⟩ := h
+            exact ⟨_, findPeer_setPeer m _ _ p _ hpa hp, rfl, by intro hidx y hy; first | exact hidx y hy | exact hy | cases hy⟩
+        · simp only [Out.ok.injEq] at h
+          obtain ⟨rfl, rfl⟩ := h
+          exact ⟨_, findPeer_setPeer m _ _ p _ hpa hp, rfl, by intro hidx y hy; first | exact hidx y hy | exact hy | cases hy⟩
   | bitfield b bits chosen =>
     simp only [evAddr] at hev; subst hev
     simp only [mstep, hp] at h
@@ -254,7 +261,7 @@ theorem mstep_other (m m' : MState) (a : Nat) (ev : Ev) (r : Reply) (hne : evAdd
       simp only [hp, Out.ok.injEq] at h
       obtain ⟨rfl, _⟩ := h
       exact findPeer_setPeer_other m _ a _ (by simp only; rw [hpa]; exact hne)
-  | «have» b i =>
+  | «have» b i chosen =>
     simp only [evAddr] at hne
     simp only [mstep] at h
     cases hp : findPeer m b with
@@ -264,17 +271,24 @@ theorem mstep_other (m m' : MState) (a : Nat) (ev : Ev) (r : Reply) (hne : evAdd
       simp only [hp] at h
       split at h
       · cases h
-      · split at h
-        · split at h
-          · simp only [Out.ok.injEq] at h
-            obtain ⟨rfl, _⟩ := h
-            exact findPeer_setPeer_other m _ a _ (by simp only; rw [hpa]; exact hne)
-          · simp only [Out.ok.injEq] at h
-            obtain ⟨rfl, _⟩ := h
-            exact findPeer_setPeer_other m _ a _ (by simp only; rw [hpa]; exact hne)
-        · simp only [Out.ok.injEq] at h
+      · cases chosen with
+        | none =>
+          simp only [Out.ok.injEq] at h
           obtain ⟨rfl, _⟩ := h
           exact findPeer_setPeer_other m _ a _ (by simp only; rw [hpa]; exact hne)
+        | some c =>
+          simp only at h
+          split at h
+          · split at h
+            · simp only [Out.ok.injEq] at h
+              obtain ⟨rfl, _⟩ := h
+              exact findPeer_setPeer_other m _ a _ (by simp only; rw [hpa]; exact hne)
+            · simp only [Out.ok.injEq] at h
+              obtain ⟨rfl, _⟩ := h
+              exact findPeer_setPeer_other m _ a _ (by simp only; rw [hpa]; exact hne)
+          · simp only [Out.ok.injEq] at h
+            obtain ⟨rfl, _⟩ := h
+            exact findPeer_setPeer_other m _ a _ (by simp only; rw [hpa]; exact hne)
   | bitfield b bits chosen =>
     simp only [evAddr] at hne
     simp only [mstep] at h
@@ -795,7 +809,7 @@ theorem linked_step (T : Torrent) (sha1 : Bytes → Bytes) (disk : Bytes → Opt
           exact linked_of_view a m1 t' _ p' hp' hv' (by rw [hv, hvt]; rfl) (hi' hidx)
         | recvHave i =>
           simp only [Handled] at hH
-          obtain ⟨r, hm, hr⟩ := hH
+          obtain ⟨chosen, r, hm, hr⟩ := hH
           obtain ⟨p', hp', hv', hi'⟩ := mstep_view m m1 a _ _ p rfl rfl hp hm
           refine linked_of_view a m1 t' _ p' hp' hv' ?_ (hi' hidx)
           rw [hv, hvt, hr]
@@ -840,7 +854,7 @@ theorem handled_other (T : Torrent) (a b : Nat) (m m1 : MState) (cmds : List Cmd
       | recvInterested => simp only [Handled] at h; exact mstep_other m m1 b _ _ (by exact hab) h
       | recvUnchoke => simp only [Handled] at h; obtain ⟨_, _, hm, _⟩ := h; exact mstep_other m m1 b _ _ (by exact hab) hm
       | recvNotInterested => simp only [Handled] at h; obtain ⟨_, _, hm, _⟩ := h; exact mstep_other m m1 b _ _ (by exact hab) hm
-      | recvHave i => simp only [Handled] at h; obtain ⟨_, hm, _⟩ := h; exact mstep_other m m1 b _ _ (by exact hab) hm
+      | recvHave i => simp only [Handled] at h; obtain ⟨_, _, hm, _⟩ := h; exact mstep_other m m1 b _ _ (by exact hab) hm
       | recvBitfield bs => simp only [Handled] at h; obtain ⟨_, _, _, hm, _⟩ := h; exact mstep_other m m1 b _ _ (by exact hab) hm
       | pieceDone => simp only [Handled] at h; obtain ⟨_, _, hm, _⟩ := h; exact mstep_other m m1 b _ _ (by exact hab) hm
       | pieceCancel => simp only [Handled] at h; obtain ⟨_, _, hm, _⟩ := h; exact mstep_other m m1 b _ _ (by exact hab) hm
